@@ -33,6 +33,16 @@ STEER = {
           "Typical shapes: a threshold or fast path chosen by size, a fixed-size scratch area, a loop that handles the first N items differently, "
           "a slice bound that is right only for short data, a recursion or stack depth assumption. A single small change is fine as long as "
           "ordinary use and the doc examples do not expose it. The existing 40 tests must still pass."),
+    'i': ("Look at the CONTRACTS between components, where one side can be changed and still look locally right: what the code generator assumes "
+          "about a field (struct_code, is_fixed, is_bigendian, byte_count, field_name versus the name in the field list), what Sequence / Optional "
+          "assume about the field they wrap (a fresh object per unpack, the scratch slot, the extra slots it asks for, its pack_regexp), what the class "
+          "builder assumes about _describe_yourself and the order of fields and move pseudo-fields, what Ref assumes about prototypes, selectors and "
+          "callables, what PacketError assumes about who adds which stack entry and which offset, what the pattern matcher assumes about pack_regexp "
+          "of each field kind, what the cache assumes about the cookie and the file, what descriptors assume about slot names. Change ONE side of such "
+          "a contract so that a particular COMBINATION of two field kinds, two modifiers or two options breaks while each of them alone keeps working "
+          "(for example: a described field inside a repeated reference under class align; an optional Bits run; a selector that returns a positioned "
+          "field; a user-defined Field subclass next to generated code). A single small change is fine as long as ordinary use and the doc examples do "
+          "not expose it. The existing 40 tests must still pass."),
 }
 for i in range(1, 21):
     pid = 'C%02d' % i
